@@ -58,6 +58,25 @@ def build(t):
     return Obj(fields)
 
 
+def to_model(c):
+    """component tree -> model component with every parameter fixed to its value"""
+    if "f" in c:
+        return unhex(c["f"])
+    if c.get("cls") == "gauss":
+        d = {k: unhex(x["f"]) for k, x in c["o"]}
+        return af.Model(af.Gaussian, centre=d["centre"], normalization=d["normalization"], sigma=d["sigma"])
+    if "o" in c:
+        return af.Collection(**{k: to_model(x) for k, x in c["o"]})
+    raise ValueError("component not expressible as a model: %r" % (c,))
+
+
+def build_root(t):
+    """`via: collection` builds the instance the way fits do: compose a Collection, ask it for an instance"""
+    if t.get("via") == "collection":
+        return af.Collection(**{k: to_model(c) for k, c in t["o"]}).instance_from_prior_medians()
+    return build(t)
+
+
 def is_floaty(o):
     return isinstance(o, (float, np.floating)) or (isinstance(o, np.ndarray) and o.ndim == 0 and o.dtype.kind == "f")
 
@@ -138,8 +157,9 @@ def oracle_value(req):
 
 def run_series(s):
     trees = s["insts"]
-    objs = [build(t) for t in trees]
-    abs_ok = [abstract(o) == strip(t) for o, t in zip(objs, trees)]
+    objs = [build_root(t) for t in trees]
+    built = [abstract(o) for o in objs]
+    abs_ok = [drop_item_number(b) == strip(t) for b, t in zip(built, trees)]
     before = snapshot(objs)
     results = []
     interpolators = {}     # one interpolator per (order, method), queried repeatedly (multi-step history)
@@ -179,12 +199,23 @@ def run_series(s):
         r["inputs_unchanged"] = after == before
         if not r["inputs_unchanged"]:
             r["changed"] = [i for i, (a, b) in enumerate(zip(before, after)) if a != b]
-            objs = [build(t) for t in trees]      # fresh inputs so later queries stay meaningful
+            objs = [build_root(t) for t in trees]      # fresh inputs so later queries stay meaningful
             before = snapshot(objs)
             interpolators = {}
         r["oracle"] = [oracle_value(req) for req in q.get("requests", [])]
         results.append(r)
-    return {"abs_ok": abs_ok, "queries": results}
+    return {"abs_ok": abs_ok, "built": built, "queries": results}
+
+
+def drop_item_number(t):
+    """instances made by Collection carry an int attribute `item_number` at every collection level"""
+    if "o" in t:
+        return {"o": [[k, drop_item_number(c)] for k, c in t["o"] if k != "item_number"], "cls": t["cls"]}
+    if "l" in t:
+        return {"l": [drop_item_number(c) for c in t["l"]]}
+    if "t" in t:
+        return {"t": [drop_item_number(c) for c in t["t"]]}
+    return t
 
 
 def strip(t):
